@@ -42,6 +42,7 @@ static int lock_id(const void *p) {
 }
 
 bool verif_all_free(void) {
+	if (verif_order_errors != 0) return false;
 	for (int i = 0; i < L_COUNT; i++) {
 		if (verif_rd[i] != 0 || verif_wr[i] != 0) return false;
 	}
@@ -54,14 +55,36 @@ void verif_locks_reset(void) {
 		verif_rd[i] = 0; verif_wr[i] = 0; verif_acq_count[i] = 0; verif_rel_count[i] = 0;
 		for (int j = 0; j < L_COUNT; j++) verif_edge[i][j] = false;
 	}
-	verif_lock_errors = 0;
+	verif_lock_errors = 0; verif_order_errors = 0; verif_recursive_reads = 0;
 }
 
-static void note_edges(int id) {
+/* the global nesting order as practised by the library (bidib_init_mutexes acquires the locks in this very
+ * sequence): trains rwlock -> track-state mutexes (accessories, peripherals, segments, reversers, trains,
+ * boosters, track outputs) -> boards rwlock -> action id -> send-order mutex (L_OTHER) -> node table ->
+ * send buffer -> uplink queues.  A lock may only be acquired while locks of strictly lower rank are held;
+ * the one exception is a read acquisition of an rwlock the thread already holds for reading (legal with
+ * glibc's reader-preferring default, counted in verif_recursive_reads). */
+static const int verif_rank[L_COUNT] = {
+	[L_TRAINS_RW] = 0, [L_ACCESSORIES] = 1, [L_PERIPHERALS] = 2, [L_SEGMENTS] = 3, [L_REVERSERS] = 4,
+	[L_TS_TRAINS] = 5, [L_BOOSTERS] = 6, [L_TRACK_OUTPUTS] = 7, [L_BOARDS_RW] = 8, [L_ACTION_ID] = 9,
+	[L_OTHER] = 10, [L_NODE_TABLE] = 11, [L_SEND_BUFFER] = 12, [L_UPLINK] = 13, [L_UPLINK_ERR] = 14,
+	[L_UPLINK_INTERN] = 15,
+};
+int verif_order_errors;
+int verif_recursive_reads;
+static void note_edges_mode(int id, bool read) {
 	for (int h = 0; h < L_COUNT; h++) {
-		if (verif_rd[h] > 0 || verif_wr[h] > 0) verif_edge[h][id] = true;
+		if (verif_rd[h] > 0 || verif_wr[h] > 0) {
+			verif_edge[h][id] = true;
+			if (h == id && read && verif_wr[h] == 0) { verif_recursive_reads++; continue; }
+			if (verif_rank[h] >= verif_rank[id]) {
+				verif_order_errors++;
+				__CPROVER_assert(0, "LOCK: acquisition against the global lock order (potential deadlock)");
+			}
+		}
 	}
 }
+static void note_edges(int id) { note_edges_mode(id, false); }
 
 int pthread_mutex_init(pthread_mutex_t *m, const pthread_mutexattr_t *a) {
 	(void)a; int id = lock_id(m); verif_wr[id] = 0; verif_rd[id] = 0; return 0;
@@ -104,7 +127,7 @@ int pthread_rwlock_rdlock(pthread_rwlock_t *l) {
 		verif_lock_errors++;
 		__CPROVER_assert(0, "LOCK: rdlock while holding the same rwlock for writing (self-deadlock)");
 	}
-	note_edges(id);
+	note_edges_mode(id, true);
 	verif_rd[id]++;
 	verif_acq_count[id]++;
 	return 0;
